@@ -32,6 +32,16 @@ def dynamic_anchor_probe(ctx):
             roles = {("10.1.11.1", 1): ("Attacker", dict(empty, controlled_hosts=["random"])),
                      ("10.1.11.2", 2): ("Defender", dict(empty, controlled_hosts=["all_local"]))}
             exfiltrated = set()
+            # a third role whose (well-formed, anchored) start position also names services and data: a host that runs services and
+            # holds data is controlled and known from the start, with some of its services and data - all in the scenario's addresses
+            rich = [h for h, node in sorted(g._ip_to_hostname.items(), key=lambda x: str(x[0])) if g._services.get(node) and g._data.get(node)]
+            if rich:
+                h0 = rich[0]
+                node = g._ip_to_hostname[h0]
+                roles[("10.1.11.3", 3)] = ("Attacker", {"known_networks": set(), "known_hosts": {h0}, "controlled_hosts": [h0, "random"],
+                                                        "known_services": {h0: set(sorted(g._services[node], key=lambda x: x.name)[:2])},
+                                                        "known_data": {h0: set(sorted(g._data[node], key=lambda x: x.id)[:1])}})
+                stats["start_positions_with_services_and_data"] = stats.get("start_positions_with_services_and_data", 0) + 1
 
             def anchored(gs, who, when):
                 stats["views_checked"] += 1
